@@ -211,6 +211,7 @@ func (p *Proxy) receiveAndProcessMessage() {
 				p.handleDialog(rawMsg.PeerAddr, rawMsg.PeerPort, msg)
 				p.HandleMessage(msg)
 			}
+			vt("loop.msg", p)
 		case backendChangeEvent := <-p.backendChangeChannel:
 			backend := backendChangeEvent.backend
 			switch backendChangeEvent.action {
@@ -219,6 +220,7 @@ func (p *Proxy) receiveAndProcessMessage() {
 			case "remove":
 				delete(p.backends, backend.GetAddress())
 			}
+			vt("loop.bev", p, backendChangeEvent.action, backend.GetAddress())
 		case conn := <-p.connAcceptedChannel:
 			host, port, err := net.SplitHostPort(conn.RemoteAddr().String())
 			if err == nil {
@@ -230,6 +232,7 @@ func (p *Proxy) receiveAndProcessMessage() {
 					}
 				}
 			}
+			vt("loop.conn", p, conn)
 		}
 	}
 }
